@@ -103,10 +103,12 @@ void bn_mxp_sim_few(bn_t c, const bn_t *a, const bn_t *b, const bn_t m,
 		RLC_THROW(ERR_NO_MEMORY);
 		return;
 	}
+	for (size_t i = 0; i < (1 << n); i++) {
+		bn_null(t[i]);
+	}
 
     RLC_TRY {
 		for (size_t i = 0; i < (1 << n); i++) {
-			bn_null(t[i]);
 			bn_new(t[i]);
 		}
 		bn_new(u);
